@@ -27,10 +27,7 @@ fn entries_1230(v: &V) -> J {
     let mut out = vec![];
     if let Some(xs) = v.field("glo_code_phase_biases").and_then(|b| b.as_seq()) {
         for x in xs {
-            let (b, a) = match x.field("signal_id") {
-                Some(V::TupleStruct(_, s)) => (s[0].as_i128().unwrap_or(-1) as i64, if let V::Char(c) = s[1] { c as i64 } else { -1 }),
-                _ => (-1, -1),
-            };
+            let (b, a) = x.field("signal_id").map(crate::special_msm::sig_of).unwrap_or((-1, -1));
             let bits = match x.field("bias_m") {
                 Some(V::F32(f)) => format!("{:08x}", f.to_bits()),
                 _ => "?".into(),
